@@ -138,3 +138,90 @@ def check(ctx, cfg, prog, rule, mod=None):
                        'stats.result), so the reported inserted / skipped counts no longer equal what is present'),
                    site='%s:%d' % (b.file, line))
     ctx.floor('%s: (outcome, statistics) pairs built' % rule, 3, n_sites, cfg)
+
+
+# ------------------------------------------------------------------------------------------ STATSRC
+def _is_ctor_result(ty):
+    return 'DelaunayTriangulation<' in ty and 'ConstructionStatistics' in ty
+
+
+def _ctor_sites(b, al, local, seen_calls=None):
+    """Call blocks in the backward slice of `local` whose result carries a triangulation together with construction
+    statistics (Ok pair or error-with-statistics).  Calls that receive `&mut local` contribute their other arguments."""
+    import valueflow
+    sites = set()
+    work = [local]
+    done = set()
+    while work:
+        l = work.pop()
+        if l in done:
+            continue
+        done.add(l)
+        for leaf in valueflow.sources(b, al, l):
+            if leaf[0] == 'call':
+                t = leaf[1]
+                if t.dest is not None and t.dest.is_local() and _is_ctor_result(b.locals[t.dest.local]):
+                    sites.add(leaf[2])
+        for (_, idx, node) in b.defs.get(l, []):      # the variable a temporary was moved out of
+            if idx != 'term' and node.rv.k == 'use' and node.rv.ops and node.rv.ops[0].place is not None:
+                work.append(node.rv.ops[0].place.local)
+        # mutation through a pointer: f(&mut l, others..)
+        for bb, t in b.calls():
+            hit = False
+            for o in t.args:
+                tt = al.operand_target(o)
+                if tt is not None and tt[0] == l and not tt[1] and tt[2]:
+                    hit = True
+            if hit:
+                for o in t.args:
+                    if o.place is not None:
+                        tt = al.operand_target(o)
+                        if tt is not None and tt[0] != l:
+                            work.append(tt[0])
+                        elif tt is None:
+                            work.append(o.place.local)
+    return sites
+
+
+def check_src(ctx, cfg, prog, rule, mod):
+    """The statistics returned next to a triangulation describe the pass that built *that* triangulation: in every
+    `Ok((dt, stats))`, each construction call in the backward slice of `stats` (mutations through `&mut stats`
+    included) is also in the slice of `dt`.  Statistics of an abandoned attempt (an `Err` carrying them) may be
+    forwarded in an error, not added to a success."""
+    n = 0
+    for q, b in sorted(prog.bodies.items()):
+        if '::tests::' in q or not b.file.startswith('src/'):
+            continue
+        rt = b.locals[0]
+        if not (rt.startswith('std::result::Result<(') and _is_ctor_result(rt)):
+            continue
+        al = mod.aliases(q)
+        for blk in b.blocks:
+            if blk.cleanup:
+                continue
+            for s in blk.stmts:
+                if not (s.kind == 'A' and s.place.is_local() and s.place.local == 0 and s.rv.k == 'agg' and
+                        s.rv.raw.get('ak') == 'adt' and str(s.rv.raw.get('variant')) in ('Ok', '0') and s.rv.ops
+                        and s.rv.ops[0].place is not None and s.rv.ops[0].place.is_local()):
+                    continue
+                tup = s.rv.ops[0].place.local
+                parts = None
+                for (_, idx, node) in b.defs.get(tup, []):
+                    if idx != 'term' and node.rv.k == 'agg' and node.rv.raw.get('ak') == 'tuple' and len(node.rv.ops) == 2:
+                        parts = node.rv.ops
+                if parts is None or any(o.place is None or not o.place.is_local() for o in parts):
+                    continue
+                dt_l, st_l = parts[0].place.local, parts[1].place.local
+                if 'DelaunayTriangulation<' not in b.locals[dt_l] or 'ConstructionStatistics' not in b.locals[st_l]:
+                    continue
+                n += 1
+                s_sites = _ctor_sites(b, al, st_l)
+                d_sites = _ctor_sites(b, al, dt_l)
+                extra = sorted(s_sites - d_sites)
+                ctx.ob(rule, '%s|Ok-pair' % (b.root or q), cfg, not extra,
+                       'the statistics returned with the triangulation come from %s' % (
+                           'the construction call(s) that produced it (%d) or from local bookkeeping' % len(d_sites) if not extra else
+                           'construction call(s) at line(s) %s whose triangulation is NOT the one returned: counters of an abandoned '
+                           'pass are added to the reported ones (inserted > vertices present)' % [b.blocks[x].term.line for x in extra]),
+                       site='%s:%d' % (b.file, s.line))
+    ctx.floor('%s: Ok((triangulation, statistics)) aggregates' % rule, 1, n, cfg)
